@@ -4,9 +4,18 @@ from props import C09_text
 RULE = ("text: generated documents (brace-, quote-, backslash- and '#'-bearing strings, comments) x every sampled Open position x read schedules x "
         "buffer sizes, for TokenReader::skip_container and skip_unquoted_value; alignment sweep of each special byte across an 8-byte word. "
         "Oracle: tokens after the skip = tokens after the matching Close found by counting on the slice reader's token list. "
-        "non-trivial = the skip succeeded over a container")
+        "non-trivial = the skip succeeded over a container. "
+        "Wave 4 (props/C09_doc.py): documents with parameter blocks, '?'-words and clean @[..] x EVERY Open x buffers from 3 bytes x schedules, "
+        "oracle derived from the abstract document (position() after the skip = byte offset after the document's matching close; rest = what "
+        "the slice reader reads from there); short inputs x all compositions of the reads x caps 1,2,3,8; 8+ braces in one SWAR word at every "
+        "alignment, quotes/comments several buffers long, CR/VT/FF inside comments; skip_unquoted_value gap variants (LF TAB TAB TAB after a "
+        "comment across a refill, ';', end of input inside a comment); count_chunk / contains_zero_byte / repeat_byte against a per-lane oracle; "
+        "binary: the whole rest of the stream after one and after two skips, every payload kind filled with id-looking words")
 TRUSTED = []
 ASSUMPTIONS = []
+# a_c09 (wave 4): the binary half compares the debug build with the release build (stream skip_debug_build); without this
+# line `check C09` never rebuilt the debug harness, so that stream ran a stale binary when the repository changed
+PROFILES = ["release", "debug"]
 
 
 def run(ctx):
@@ -17,6 +26,13 @@ def run(ctx):
         C09_bin = None
     if C09_bin:
         C09_bin.run_binary(ctx)
+    # >>> a_c09 (wave 4): document-derived oracles, every Open, small buffers, all compositions, dense braces,
+    #     skip_unquoted_value gaps, SWAR leaves; binary: drain after the skip, two skips in one run
+    from props import C09_doc
+    C09_doc.run_doc(ctx)
+    if C09_bin and hasattr(C09_bin, "run_binary_more"):
+        C09_bin.run_binary_more(ctx)
+    # <<< a_c09
 
 
 def search(ctx):
@@ -32,6 +48,10 @@ def search(ctx):
 
 CLAIM = {
     "text": "Coq theorems over the literal models of the text reader's skip_container (8-byte SWAR brace counting, Quote/Comment sub-states surviving refills) and of the binary lexer/reader skips; correspondence on every case; oracle on the implementation: the stream continues exactly at the token after the matching close found by token counting, for every schedule and buffer size",
-    "note": "Trusted: Coq kernel, translator, extraction, harness. Evidence lists the theorems proved; the rest is carried by correspondence + oracle.",
+    "note": "Trusted: Coq kernel, translator, extraction, harness. Evidence lists the theorems proved; the rest is carried by correspondence + oracle. "
+            "Document level: C09_text_doc_skip_all / C09_text_doc_stream_all hold for every document whose unquoted tokens hold none of { } \" # "
+            "(parameter blocks, @[..], ?-words included) under every whitespace/comment layout; the excluded documents are the refuted class "
+            "(known finding text-skip-unquoted-special). The link document -> token counting by the reference tokenizer is proved for "
+            "simple_fields documents only (C09_text_doc_skip_partial); for the rest it is checked on the implementation (oracle text-doc-count).",
     "technique": "machine-checked proof in Coq over an executable model + model/implementation correspondence by extraction",
 }
